@@ -51,7 +51,7 @@ func init() {
 				Min:  map[string]int64{"inputs": 500000, "rejected": 10000, "accepted": 10000, "raster_draws": 1000}},
 			{Name: "generated", N: big(200_000, 8_000_000), Run: c02Generated, CaseCPU: 20,
 				Rule: "splices/insertions/deletions of corpus files, hand-assembled streams with reserved opcodes and truncation, uniformly random tails behind a valid magic, non-finite and huge operands; prefix property on PRNG-chosen cut points",
-				Min:  map[string]int64{"inputs": 100000, "rejected": 10000, "accepted": 10000}},
+				Min:  map[string]int64{"inputs": 100000, "rejected": 10000, "accepted": 10000, "long_run_inputs": 10000}},
 			{Name: "adversarial-metadata", N: big(60_000, 2_000_000), Run: c02Metadata, CaseCPU: 20,
 				Rule: "chunk counts and lengths up to 2^30-1, lengths past EOF, palettes of every format cut short, unknown identifiers, repeated and out-of-order chunks",
 				Min:  map[string]int64{"inputs": 30000, "rejected": 10000}},
@@ -347,7 +347,24 @@ func c02Generated(c *run.Ctx, idx uint64) {
 	fs := corpus.Files()
 	var b []byte
 	family := ""
-	switch idx % 5 {
+	switch idx % 6 {
+	case 5:
+		// long runs: the same drawing opcode at its maximum repeat count, 8..20 times
+		// in a row (256 to 640 consecutive operations of one kind)
+		family = "long-runs"
+		var a gen.Asm
+		a.Magic()
+		a.Nat(0, 1)
+		a.Byte(0xc0)
+		a.Nat(0x80, 1)
+		a.Nat(0x80, 1)
+		op := byte(r.Pick(0x1f, 0x1f, 0x3f, 0x4f, 0x5f, 0x6f, 0x7f, 0x8f, 0x9f, 0xaf, 0xbf, 0xcf, 0xdf, 0xe6, 0xe7, 0xe8, 0xe9))
+		for n := r.Range(8, 20); n > 0; n-- {
+			a.Instr(r, true, op)
+		}
+		a.Byte(0xe1)
+		b = a.B
+		c.Count("long_run_inputs", 1)
 	case 0:
 		family = "splice"
 		f, o := fs[r.Intn(len(fs))], fs[r.Intn(len(fs))]
